@@ -373,7 +373,7 @@ func (dp *DataProcessor) startWindowProcessing() {
 					// Channel closed, exit
 					return
 				}
-				dp.processWindowBatch(batch)
+				dp.processWindowBatchSafe(batch)
 				verifhook.At("proc.batch", dp.stream, int64(len(batch)), 0, 0)
 			case <-dp.stream.done:
 				// Stream stopped, exit
@@ -384,6 +384,34 @@ func (dp *DataProcessor) startWindowProcessing() {
 }
 
 // processWindowBatch processes window batch data
+// processWindowBatchSafe keeps the window pipeline alive when a batch panics
+// (e.g. a user function panicking on one row): the batch is abandoned, its partial
+// aggregation state is cleared, and later batches are processed normally.
+func (dp *DataProcessor) processWindowBatchSafe(batch []types.Row) {
+	defer func() {
+		if r := recover(); r != nil {
+			dp.stream.log.Error("window batch panic recovered, batch dropped: %v", r)
+			if dp.stream.aggregator != nil {
+				dp.stream.aggregator.Reset()
+			}
+		}
+	}()
+	dp.processWindowBatch(batch)
+}
+
+// addToAggregator feeds one row to the aggregator; a row that panics (user
+// function) is skipped like a row whose evaluation fails, the batch goes on.
+func (dp *DataProcessor) addToAggregator(data any) {
+	defer func() {
+		if r := recover(); r != nil {
+			dp.stream.log.Error("aggregate panic recovered, row skipped: %v", r)
+		}
+	}()
+	if err := dp.stream.aggregator.Add(data); err != nil {
+		dp.stream.log.Error("aggregate error: %v", err)
+	}
+}
+
 func (dp *DataProcessor) processWindowBatch(batch []types.Row) {
 	// Global window maintains its own running aggregate and emits final result
 	// maps directly (FIRE_AND_PURGE per group); each Row.Data is already a
@@ -408,9 +436,7 @@ func (dp *DataProcessor) processWindowBatch(batch []types.Row) {
 		if err := dp.stream.aggregator.Put(WindowEndField, item.Slot.WindowEnd()); err != nil {
 			dp.stream.log.Error("failed to put window end: %v", err)
 		}
-		if err := dp.stream.aggregator.Add(item.Data); err != nil {
-			dp.stream.log.Error("aggregate error: %v", err)
-		}
+		dp.addToAggregator(item.Data)
 	}
 
 	// Get and send aggregation results
